@@ -17,6 +17,7 @@ import VaxisModel.Gen.VxfwBodies
 import VaxisModel.Lemmas.VxfwBody
 import VaxisModel.Lemmas.VxfwBodyMouse
 import VaxisModel.Lemmas.VxfwBodyFocus
+import VaxisModel.Lemmas.VxfwBodyHover
 import VaxisModel.Props.C15
 import VaxisModel.Props.C15Err
 
@@ -118,6 +119,43 @@ example :
     let o : Oracle := ⟨fun _ _ _ _ => .redraw, fun _ => false⟩
     (runFocusWidget (parseBody Gen.VxfwBodies.focusWidget) ⟨o, fun w ev _ _ => w = 1 ∧ ev = .focusIn⟩ 2 (St.init 0) 1).map
       (fun r => (r.1.focused, r.1.trace.length, r.1.redraw, r.2)) = some (1, 4, true, true) := by decide +kernel
+
+/-- The regenerated bodies of `mouseHandler.mouseExit` / `mouseEnter` are the ones the execution lemmas are about. -/
+theorem hover_bodies_as_expected : Gen.VxfwBodies.mouseExit = Lemmas.VxfwBodyExpected.mouseExit ∧
+    Gen.VxfwBodies.mouseEnter = Lemmas.VxfwBodyExpected.mouseEnter := by decide +kernel
+
+/-- **`mouseHandler.mouseExit`, executed from its regenerated body, IS `eMouseExit`** (what closes the hovers when the
+    terminal loses focus or the pointer leaves): every widget of the hit list is told `MouseLeave` in order (a failing
+    handler's error is returned at once, the list kept), its command handled, then `m.lastHits = []`, nil returned. -/
+theorem mouse_exit_body_eq_model (e : EOracle) (fuel : Nat) (s : St) :
+    runMouseExit (parseBody Gen.VxfwBodies.mouseExit) e fuel s = some (eMouseExit e fuel s) := by
+  rw [hover_bodies_as_expected.1, Lemmas.VxfwBody.parse_mx]
+  exact Lemmas.VxfwBody.mx_exec e fuel s
+
+/-- **`mouseHandler.mouseEnter`, executed from its regenerated body, IS `eMouseEnter`** (the repair of F43): nothing and nil
+    if the widget is in the hit list (`h.w == w` for some hit); else the hit `{w: w}` is appended FIRST, then the widget is
+    told `MouseEnter`, its error returned or its command handled. -/
+theorem mouse_enter_body_eq_model (e : EOracle) (fuel : Nat) (s : St) (w : Id) :
+    runMouseEnter (parseBody Gen.VxfwBodies.mouseEnter) e fuel s w = some (eMouseEnter e fuel s w) := by
+  rw [hover_bodies_as_expected.2, Lemmas.VxfwBody.parse_me]
+  exact Lemmas.VxfwBody.me_exec e fuel s w
+
+/-- **Closed when the terminal focus leaves, for the executed body**: after the interpreted `mouseExit` (no failing
+    handler) the hit list is empty — nothing is entered any more. -/
+theorem mouse_exit_body_closes (o : Oracle) (fuel : Nat) (s : St) :
+    ∃ s', runMouseExit (parseBody Gen.VxfwBodies.mouseExit) (e0 o) fuel s = some (s', false) ∧ s'.lastHits = [] := by
+  rw [mouse_exit_body_eq_model]
+  have h : ∀ (hits : List Hit) (s : St), (eNotifyLoop (e0 o) fuel .mouseLeave (fun _ => false) hits s).2 = false := by
+    intro hits
+    induction hits with
+    | nil => intro s; rfl
+    | cons h hits ih =>
+      intro s
+      simp only [eNotifyLoop, Bool.false_eq_true, ↓reduceIte, eNotify, e0_failsAt]
+      exact ih _
+  unfold eMouseExit
+  simp only [h, Bool.false_eq_true, ↓reduceIte]
+  exact ⟨_, rfl, rfl⟩
 
 /-- Non-vacuity: widgets 0 and 1 capture, 2 consumes in the bubble phase, 3 is focused; the run of the
     regenerated body calls 0c 1c 3t 2b and returns nil; with a failing target call it stops there and
